@@ -88,24 +88,114 @@ theorem C14_rep_cases (r : Nat) (c : Int) (m : Int) (e : Nat) (y : LinComb) :
     rep r (.int c) = c * 2 ^ r ∧ rep r (.flt m e) = scaleFlt m e r ∧ rep r (.lc y) = y.value * 2 ^ r ∧
     rep r (.lcb y) = y.value * 2 ^ r ∧ rep r (.fxp y) = y.value := ⟨rfl, rfl, rfl, rfl, rfl⟩
 
-/-- RECORDED DEVIATION (C14-lincomb-lt-fxp), general form: with an integer secret `a` on the LEFT,
-`a < x` is computed as `(a+1)·2^r ≤ rep x`, not as `a·2^r < rep x` -/
-theorem C14_lincomb_lt_fxp_computes {a : LinComb} (hp : Plain s)
+/-- **comparisons, any operand order** (repaired finding C14-lincomb-strict-compare-fxp: no
+exclusion any more).  With at least one fixed-point operand — fixed point on the left, or an integer
+secret / int / float on the left and the fixed point on the right — all six comparisons return 0/1
+according to the order of the representations `rep a`, `rep b` … -/
+theorem C14_cmp_exact_any {op : Cmp} {a b : Val} (hp : Plain s) (hf : (a.isFxp || b.isFxp) = true)
+    (h : cmpV op a b s = .ok (v, s')) :
+    ∃ r, v = .lcb r ∧ r.value = cmpSem op (rep s.resolution a) (rep s.resolution b) :=
+  (fx_cmpV_fxp_val hp hf h).2
+
+/-- … in particular with an integer secret `a` on the LEFT of a fixed-point `x`, for `<` and `>` as
+well: the order of `a·2^r` and the representation of `x` -/
+theorem C14_cmp_lincomb_left_exact {op : Cmp} {a : LinComb} (hp : Plain s)
+    (h : cmpV op (.lc a) (.fxp x) s = .ok (v, s')) :
+    ∃ r, v = .lcb r ∧ r.value = cmpSem op (a.value * 2 ^ s.resolution) x.value :=
+  (fx_cmpV_fxp_val (a := .lc a) (b := .fxp x) hp rfl h).2
+
+/-- … which by `C14_cmp_represented` is the order of the represented NUMBERS: `a < x` returns 1
+exactly when the integer `a` is below the rational `x.value / 2^r` (likewise `a > x`) -/
+theorem C14_lincomb_lt_fxp_represented {a : LinComb} (hp : Plain s)
     (h : cmpV .lt (.lc a) (.fxp x) s = .ok (v, s')) :
+    ∃ r, v = .lcb r ∧ (r.value = 0 ∨ r.value = 1) ∧
+      (r.value = 1 ↔ (a.value : ℚ) < (x.value : ℚ) / 2 ^ s.resolution) := by
+  obtain ⟨r, rfl, vr⟩ := C14_cmp_lincomb_left_exact hp h
+  refine ⟨r, rfl, ?_, ?_⟩
+  · rw [vr]; simp only [cmpSem]; split <;> simp
+  · have key := (C14_cmp_represented s.resolution (a.value * 2 ^ s.resolution) x.value).1
+    have hpos : (0 : ℚ) < 2 ^ s.resolution := by positivity
+    have hq : ((a.value * 2 ^ s.resolution : Int) : ℚ) / 2 ^ s.resolution = (a.value : ℚ) := by
+      push_cast; field_simp
+    rw [hq] at key
+    rw [vr]; simp only [cmpSem]
+    constructor
+    · intro h1
+      by_contra hc
+      rw [← key] at hc
+      rw [if_neg hc] at h1
+      exact absurd h1 (by norm_num)
+    · intro h1; rw [if_pos (key.mpr h1)]
+
+theorem C14_lincomb_gt_fxp_represented {a : LinComb} (hp : Plain s)
+    (h : cmpV .gt (.lc a) (.fxp x) s = .ok (v, s')) :
+    ∃ r, v = .lcb r ∧ (r.value = 0 ∨ r.value = 1) ∧
+      (r.value = 1 ↔ (x.value : ℚ) / 2 ^ s.resolution < (a.value : ℚ)) := by
+  obtain ⟨r, rfl, vr⟩ := C14_cmp_lincomb_left_exact hp h
+  refine ⟨r, rfl, ?_, ?_⟩
+  · rw [vr]; simp only [cmpSem]; split <;> simp
+  · have key := (C14_cmp_represented s.resolution x.value (a.value * 2 ^ s.resolution)).1
+    have hpos : (0 : ℚ) < 2 ^ s.resolution := by positivity
+    have hq : ((a.value * 2 ^ s.resolution : Int) : ℚ) / 2 ^ s.resolution = (a.value : ℚ) := by
+      push_cast; field_simp
+    rw [hq] at key
+    rw [vr]; simp only [cmpSem, gt_iff_lt]
+    constructor
+    · intro h1
+      by_contra hc
+      rw [← key] at hc
+      rw [if_neg hc] at h1
+      exact absurd h1 (by norm_num)
+    · intro h1; rw [if_pos (key.mpr h1)]
+
+/-- how it is reached: `LinComb.__lt__` / `__gt__` return `NotImplemented` for a `LinCombFxp`
+operand, and Python calls the reflected `LinCombFxp.__gt__` / `__lt__` -/
+theorem C14_lincomb_strict_compare_reflected {op : Cmp} (hs : op.strict = true) (a x : LinComb) :
+    cmpV op (.lc a) (.fxp x) =
+      (do let z ← ensurefxp (.lc a); let r ← cmpLL op.mirror x z; pure (Val.lcb r)) :=
+  cmpV_lc_fxp_strict hs a x
+
+/-- why: the method body of `LinComb.__lt__` (`other - self - 1`, then `check_positive`) on a
+fixed-point operand subtracts the fixed-point 1.0, i.e. `2^r` units: it would compute
+`(a+1)·2^r ≤ rep x`, not `a·2^r < rep x` (the slip behind the repaired finding) -/
+theorem C14_lincomb_lt_method_body_off_by_one_unit {a : LinComb} (hp : Plain s)
+    (h : cmpLV .lt a (.fxp x) s = .ok (v, s')) :
     ∃ r, v = .lcb r ∧ r.value = if (a.value + 1) * 2 ^ s.resolution ≤ x.value then 1 else 0 :=
   cmpLV_lt_fxp_val hp.guard hp.ign h
 end
 
-/-- closed counterexample: resolution 8, `PrivVal(2) < PrivValFxp(2.5)` (representation 640)
-evaluates to 0 although `2 < 2.5` -/
-theorem C14_cex_lincomb_lt_fxp :
-    (match (do let a ← privVal 2; let x ← mkVal .privx (.flt 5 1); cmpV .lt (.lc a) x) (St.init 97 8 8) with
-     | .ok (.lcb r, _) => r.value == 0 | _ => false) = true := by decide +kernel
+/-- closed evaluation by the kernel; a failing instance reports quickly (no elaborator re-evaluation) -/
+macro "fxdec" : tactic =>
+  `(tactic| first
+    | decide +kernel
+    | fail "fxdec: the kernel does not evaluate this closed proposition to `true`")
 
-/-- the same comparison written with the fixed-point value on the left is right -/
-theorem C14_cex_lincomb_lt_fxp_mirror :
+/-- **regression, closed** (the former counterexample `C14_cex_lincomb_lt_fxp`): at resolution 8,
+`PrivVal(2) < PrivValFxp(2.5)` (representation 640) is 1 -/
+theorem C14_lincomb_lt_fxp_regression :
+    (match (do let a ← privVal 2; let x ← mkVal .privx (.flt 5 1); cmpV .lt (.lc a) x) (St.init 97 8 8) with
+     | .ok (.lcb r, _) => r.value == 1 | _ => false) = true := by fxdec
+
+/-- `mkI(a) op mkX(m / 2^e)` at resolution 8 on the executable model: the 0/1 answer -/
+def cmpLeftDemo (mkI : Int → M LinComb) (k : Kind) (op : Cmp) (a m : Int) (e : Nat) : Option Int :=
+  match (do let a ← mkI a; let x ← mkVal k (.flt m e); cmpV op (.lc a) x) (St.init 97 8 8) with
+  | .ok (.lcb r, _) => some r.value
+  | _ => none
+
+/-- … on both sides of and at the boundary, `<` and `>`, secret and public integer on the left:
+`2 < 2.0` is 0, `2 < 2 + 2^-8` is 1, `2 > 2 - 2^-8` is 1, `2 > 2.0` is 0, `3 > 2.5` is 1,
+`2 > 2.5` is 0, `PubVal(2) < PubValFxp(2.5)` is 1, `PubVal(3) < PubValFxp(2.5)` is 0 -/
+theorem C14_lincomb_strict_compare_regression :
+    cmpLeftDemo privVal .privx .lt 2 2 0 = some 0 ∧ cmpLeftDemo privVal .privx .lt 2 513 8 = some 1 ∧
+    cmpLeftDemo privVal .privx .gt 2 511 8 = some 1 ∧ cmpLeftDemo privVal .privx .gt 2 2 0 = some 0 ∧
+    cmpLeftDemo privVal .privx .gt 3 5 1 = some 1 ∧ cmpLeftDemo privVal .privx .gt 2 5 1 = some 0 ∧
+    cmpLeftDemo pubVal .pubx .lt 2 5 1 = some 1 ∧ cmpLeftDemo pubVal .pubx .lt 3 5 1 = some 0 := by
+  refine ⟨?_, ?_, ?_, ?_, ?_, ?_, ?_, ?_⟩ <;> fxdec
+
+/-- the same comparison written with the fixed-point value on the left gives the same answer -/
+theorem C14_lincomb_lt_fxp_mirror_regression :
     (match (do let a ← privVal 2; let x ← mkVal .privx (.flt 5 1); cmpV .gt x (.lc a)) (St.init 97 8 8) with
-     | .ok (.lcb r, _) => r.value == 1 | _ => false) = true := by decide +kernel
+     | .ok (.lcb r, _) => r.value == 1 | _ => false) = true := by fxdec
 
 /-! ## non-vacuity -/
 /-- `2.5 * 1.5 = 3.75` (960 at resolution 8); `2.5 / 1.5 = ⌊640·256/384⌋ = 426`;
@@ -128,12 +218,13 @@ RATIONALS: an integer-kind register holds a Python int, a fixed-point register h
 represented rational, a float literal is converted as `add_scaling` does (truncation of `f·2^r`),
 fixed-point × fixed-point and every quotient are floored to the grid `2^-r`, `//` and `%` are
 Python's on the rationals, comparisons are those of the rationals, `val()` returns the rational,
-`x << n` / `x >> n` multiply / divide by `2^n` (flooring to the grid), a zero divisor is `raises`.
+`x << n` / `x >> n` multiply / divide by `2^n` (flooring to the grid), a zero divisor and a
+negative shift count are `raises`.  (The former exclusions `lincombStrictCompareFxp` and
+`negativeShift` are gone: both findings were repaired in /repo and the model follows.)
 
 `FxpFragment s0 prog` (decidable, a replay of the run) excludes by name (`FxExcl`):
 `guardRegion` (C07's subject), `ignoreErrors` (`set ign`), `resAfterFxp` (`set res` while a register
-holds a fixed-point value: the library does not rescale), `lincombStrictCompareFxp` (the recorded
-deviation C14-lincomb-strict-compare-fxp), `secretLiteral`, `negativeShift` (C05-rshift-negative),
+holds a fixed-point value: the library does not rescale), `secretLiteral`,
 `secretShift` (C05-secret-exponent-mod-p), `fxpPow`, `operandKind`, `boolOperand`, `integerBitOp`,
 `unaryOther`, `otherMethod`, `containerSelect`, `secretIndex` (all: outside the statement of C14,
 subjects of C03/C05/C09/C15/C16).
@@ -177,27 +268,39 @@ theorem C14_program_int {r : Nat} {regs : List Val} {refs : List FxV}
   · obtain ⟨w, hw, hr⟩ := fxRelL_at h hx
     rw [fxRel_flt_iff.mp hr] at hw; exact hw
 
-/-- closed evaluation by the kernel; a failing instance reports quickly (no elaborator re-evaluation) -/
-macro "fxdec" : tactic =>
-  `(tactic| first
-    | decide +kernel
-    | fail "fxdec: the kernel does not evaluate this closed proposition to `true`")
-
-/-- `PrivVal(2) < PrivValFxp(2.5)` as a program -/
+/-- `PrivVal(2) < PrivValFxp(2.5)` as a program (the former counterexample program) -/
 def fxCexProg : List Instr :=
   [.lit (.int 2), .mk .priv 0, .lit (.flt 5 1), .mk .privx 2, .bin .lt 1 3]
 
-/-- the recorded deviation is what the fragment excludes: the closed program
-`PrivVal(2) < PrivValFxp(2.5)` at resolution 8 completes, is rejected by `FxpFragment` with the
-reason `lincombStrictCompareFxp`, and its result (0) differs from the reference (1) -/
-theorem C14_cex_program_lincomb_lt_fxp :
+/-- **regression at program level** (was `C14_cex_program_lincomb_lt_fxp`): the closed program
+`PrivVal(2) < PrivValFxp(2.5)` at resolution 8 completes, is INSIDE `FxpFragment` (no exclusion is
+left for it), and its result is the reference's: 1 -/
+theorem C14_program_lincomb_lt_fxp_regression :
     (run (St.init 97 8 8) fxCexProg).err = none ∧
-    fxFirstExcl fxCexProg 0 [] [] (St.init 97 8 8) = some (4, .lincombStrictCompareFxp) ∧
+    FxpFragment (St.init 97 8 8) fxCexProg ∧
+    fxFirstExcl fxCexProg 0 [] [] (St.init 97 8 8) = none ∧
     (match (run (St.init 97 8 8) fxCexProg).regs[4]?, fxRun 8 fxCexProg with
      | some (Val.lcb r), FxRes.val refs =>
-       r.value == 0 && (match refs[4]? with | some (FxV.sbool 1) => true | _ => false)
+       r.value == 1 && (match refs[4]? with | some (FxV.sbool 1) => true | _ => false)
      | _, _ => false) = true := by
-  fxdec
+  refine ⟨?_, ?_, ?_, ?_⟩ <;> fxdec
+
+/-- … and `C14_program` applies to it: its hypotheses hold and its conclusion is the agreement -/
+example : ∃ refs, fxRun 8 fxCexProg = .val refs ∧
+    fxRelL (run (St.init 97 8 8) fxCexProg).st.resolution (run (St.init 97 8 8) fxCexProg).regs refs = true :=
+  C14_program 97 8 8 fxCexProg C14_program_lincomb_lt_fxp_regression.2.1 _ rfl
+    C14_program_lincomb_lt_fxp_regression.1
+
+/-- a negative public shift count on a fixed-point value raises in the model and in the reference
+(repaired finding C05-rshift-negative; the exclusion `negativeShift` is gone): the program is in the
+fragment, the traced run stops with `ValueError` at the shift, the reference with `raises` -/
+example :
+    FxpFragment (St.init 97 8 8) [.lit (.flt 5 1), .mk .privx 0, .lit (.int (-1)), .bin .rshift 1 2] ∧
+    (run (St.init 97 8 8) [.lit (.flt 5 1), .mk .privx 0, .lit (.int (-1)), .bin .rshift 1 2]).err =
+      some (.value, 3) ∧
+    (match fxRun 8 [.lit (.flt 5 1), .mk .privx 0, .lit (.int (-1)), .bin .rshift 1 2] with
+     | FxRes.raises => true | _ => false) = true := by
+  refine ⟨?_, ?_, ?_⟩ <;> fxdec
 
 /-! ### non-vacuity of `C14_program` -/
 
